@@ -295,15 +295,26 @@ def build_obligation(inst):
                     const = L * L * -0.5
                 return [([_first(r)], [X * X * prec * -0.5 + eta * X + const])]
             if kind == "cat":
-                _, batch, reals, rank1, rank2 = inst
+                _, batch, reals, rank1, rank2 = inst[:5]
                 g1, W1, P1 = mk_gaussian(mk, "a", batch, reals, rank1)
                 g2, W2, P2 = mk_gaussian(mk, "b", batch, reals, rank2)
-                k0 = next(iter(batch))
-                c = Cat(k0, (g1, g2), k0)
+                k0 = inst[6] if len(inst) > 6 else next(iter(batch))
+                cname = inst[5] if len(inst) > 5 else k0       # Cat(name, parts, part_name) with name != part_name renames
+                c = Cat(cname, (g1, g2), k0)
                 pt = {k: mk.array("p" + k, s, "real") for k, s in reals.items()}
                 xs = flat_point(pt, reals)
                 r = eval_at(c, pt)
-                nb = OrderedDict([(k0, 2 * batch[k0])] + [(k, n) for k, n in batch.items() if k != k0])
+                nb = OrderedDict([(cname, 2 * batch[k0])] + [(k, n) for k, n in batch.items() if k != k0])
+                if list(batch).index(k0) != 0:
+                    # dense() indexes the parts in their own batch order
+                    order = list(batch)
+                    exp = []
+                    for b in itertools.product(*(range(n) for n in nb.values())):
+                        env = dict(zip(nb, b))
+                        part, W, P = (0, W1, P1) if env[cname] < batch[k0] else (1, W2, P2)
+                        env[k0] = env[cname] - part * batch[k0]
+                        exp.append(dense(W, P, tuple(env[k] for k in order), xs))
+                    return [(value_cells(r, nb), exp)]
                 exp = []
                 for b in itertools.product(*(range(n) for n in nb.values())):
                     if b[0] < batch[k0]:
@@ -311,6 +322,32 @@ def build_obligation(inst):
                     else:
                         exp.append(dense(W2, P2, (b[0] - batch[k0],) + b[1:], xs))
                 return [(value_cells(r, nb), exp)]
+            if kind == "cat_hetero":
+                # parts over DIFFERENT sets / orders of real inputs: the result ranges over their union
+                _, batch, reals_a, reals_b, rank = inst
+                g1, W1, P1 = mk_gaussian(mk, "a", batch, reals_a, rank)
+                g2, W2, P2 = mk_gaussian(mk, "b", batch, reals_b, rank)
+                k0 = next(iter(batch))
+                c = Cat(k0, (g1, g2), k0)
+                union = OrderedDict(list(reals_a.items()) + [(k, v) for k, v in reals_b.items() if k not in reals_a])
+                import z3
+                side = set(c.inputs) == set(batch) | set(union)
+                pairs = [(z3.BoolVal(side) if mk.symbolic else side, None)]
+                if not side:
+                    return pairs
+                pt = {k: mk.array("p" + k, s_, "real") for k, s_ in union.items()}
+                r = eval_at(c, pt)
+                xa = flat_point({k: pt[k] for k in reals_a}, reals_a)
+                xb = flat_point({k: pt[k] for k in reals_b}, reals_b)
+                nb = OrderedDict([(k0, 2 * batch[k0])] + [(k, n) for k, n in batch.items() if k != k0])
+                exp = []
+                for b in itertools.product(*(range(n) for n in nb.values())):
+                    if b[0] < batch[k0]:
+                        exp.append(dense(W1, P1, b, xa))
+                    else:
+                        exp.append(dense(W2, P2, (b[0] - batch[k0],) + b[1:], xb))
+                pairs.append((value_cells(r, nb), exp))
+                return pairs
             if kind == "lazy_nonaffine":
                 # h = g(x = y*y) stays lazy; h(y=c) must equal g(x=c*c, y=c)
                 _, batch, rank = inst
@@ -392,6 +429,14 @@ def instances(tier, seed):
             out.append(("cat", batch, reals, rank, max(1, rank - 1)))
         for form in ("one", "two", "kept"):
             out.append(("affine", batch, reals, rank, form))
+    for b, part_name in ((OrderedDict(i=2), "i"), (OrderedDict(i=2, j=3), "i"), (OrderedDict(i=2, j=4), "i"), (OrderedDict(j=4, i=2), "i"), (OrderedDict(i=1, j=2, k=2), "j")):
+        for reals in (OrderedDict(x=()), OrderedDict(x=(), y=(2,))):
+            for cname in ("t", part_name):
+                out.append(("cat", b, reals, 1, 1, cname, part_name))
+    for b in (OrderedDict(i=2), OrderedDict(i=1, j=2)):
+        for ra, rb in ((OrderedDict(x=()), OrderedDict(x=(), y=())), (OrderedDict(x=(), y=()), OrderedDict(x=())), (OrderedDict(x=(), y=()), OrderedDict(y=(), x=())),
+                       (OrderedDict(x=()), OrderedDict(y=())), (OrderedDict(x=(), y=(2,)), OrderedDict(y=(2,), z=()))):
+            out.append(("cat_hetero", b, ra, rb, 1))
     for b in (OrderedDict(i=2, j=2), OrderedDict(j=2, i=3), OrderedDict(i=2, j=2, k=2)):
         for reals in (OrderedDict(x=()), OrderedDict(x=(), y=(2,))):
             for rank in (1, 2):
@@ -425,7 +470,7 @@ def main():
     chk.bounds = dict(real_inputs="1-3 inputs of shapes () (2,) (2,2), total dim <= 4", batch="0-2 inputs of sizes 1-2", ranks="0..2*dim+1 (quick: 1, dim, dim+1)",
                       operations=["evaluation at a symbolic point", "g1+g2 with different input orders", "complete/partial real substitution in every order (via __call__ and via Subs)",
                                   "integer index, index tensor (values enumerated) + simultaneous rename, slice, rename+align", "affine substitution in one / two variables / a kept input",
-                                  "plate fusion reduce(add)", "mean x prec_sqrt", "1x1: {mean,info_vec,white_vec} x {precision,covariance,scale_tril,prec_sqrt}", "Cat along a batch input",
+                                  "plate fusion reduce(add)", "mean x prec_sqrt", "1x1: {mean,info_vec,white_vec} x {precision,covariance,scale_tril,prec_sqrt}", "Cat along a batch input (same and different real inputs per part)",
                                   "lazy non-affine substitution followed by a chained substitution"])
     chk.assumptions = ["set_compression_threshold(inf): rank compression (QR) is outside the claim", "factorizations (cholesky/inverse) only for 1x1 matrices: sqrt cell with s >= 0 and s*s == t",
                        "restricted claim: parametrisations through precision/covariance/scale_tril for dim >= 2 are NOT covered"]
